@@ -51,6 +51,9 @@ func phiEdgesWhere(ph *ssa.Phi, want func([]Cond) bool) (yes, no []ssa.Value) {
 
 func runC01(w *World, r *Report) {
 	hrConcurrentAllowed(w, r, "R10")
+	hrProcessorCallsOnlyItsOperation(w, r, "R10")
+	hrSetInt64Stores(w, r, "R10")
+	r.Borrow(w, c11ClockKeepsMonotonicReading, map[string]string{"R4": "R10"})
 	hrChildStrategyKeepsParent(w, r, "R10")
 	// the limiter's verdict reaches the proxy through the merge of the request actions (C07.R2)
 	r.Borrow(w, runC07, map[string]string{"R2": "R10"})
